@@ -32,6 +32,9 @@ CHECKS = {
             "releases them relative to the expiries; separate sender scenario", "5 C13", "timing oracle on the virtual clock"),
     "C14": ("FaultTableModel judged at every call over nine fault-provoking scenarios x handler codes for every condition of both "
             "entities", "5 C14", "fault scenario x handler table search"),
+    "C06": ("IntervalSet model of the bytes stored so far judged on every NAK PDU a real destination handler emits while a scripted "
+            "sender delivers a grid-segmented file in tape-chosen order with loss / duplication / displacement and answers NAK "
+            "sequences across NAK-timer expiries; exactness on timer-driven re-issues, sandwich inclusion on the first sequence", "5 C06", "refinement vs IntervalSet model"),
     "C15": ("indication model judged on every handler call in four populations; 2^4 switches per entity and 5 message variants", "5 C15", "in-situ invariant vs IndicationModel"),
 }
 NOT_BUILT = "check not built yet (work in progress, see DESIGN.md section 5)"
